@@ -56,6 +56,7 @@ struct Sched {
 	std::vector<uint32_t> trace_sizes;             // number of alternatives at every choice point (for DFS)
 	bool fair_tail = false;                        // round robin instead of choices
 	int rr = 0;
+	unsigned run_length = 0;
 };
 inline Sched &S() { static Sched s; return s; }
 inline thread_local int tid = -1;
@@ -77,6 +78,17 @@ inline void pick_next_locked(int me) {
 		return;
 	}
 	int next;
+	// Fairness: a thread that has run 300 consecutive points while others are enabled (a wait loop
+	// that polls with real operations, e.g. quiescent_barrier()) is pre-empted round robin. The
+	// rule is deterministic, so replays are unaffected.
+	if(me >= 0 && en.size() > 1 && en[0] == me && ++s.run_length > 300) {
+		s.run_length = 0;
+		next = en[1 + (s.rr++ % (en.size() - 1))];
+		s.switches++;
+		if(s.st[next] == St::spinning) { s.st[next] = St::runnable; s.after_spin[next] = true; }
+		s.current = next;
+		return;
+	}
 	if(s.fair_tail) {
 		// round robin over the enabled threads, starting after the last one chosen
 		next = en[0];
@@ -84,7 +96,7 @@ inline void pick_next_locked(int me) {
 		s.rr = next;
 	} else if(en.size() == 1) next = en[0];
 	else { s.trace_sizes.push_back((uint32_t)en.size()); next = en[s.choose(en.size()) % en.size()]; }
-	if(next != me) s.switches++;
+	if(next != me) { s.switches++; s.run_length = 0; }
 	if(s.st[next] == St::spinning) { s.st[next] = St::runnable; s.after_spin[next] = true; }
 	s.current = next;
 }
@@ -200,7 +212,7 @@ inline Result run(std::vector<std::function<void()>> bodies, std::function<uint3
 		std::unique_lock<std::mutex> lk(s.bm);
 		s.nthreads = (int)bodies.size();
 		s.st.assign(s.nthreads, St::runnable); s.blocked_on.assign(s.nthreads, nullptr); s.spin_epoch.assign(s.nthreads, 0); s.after_spin.assign(s.nthreads, false); s.op_pending.assign(s.nthreads, false);
-		s.progress = s.steps = s.switches = 0; s.abort = false; s.verdict.clear(); s.choose = choose; s.trace_sizes.clear(); s.fair_tail = false; s.rr = 0; s.max_steps = max_steps;
+		s.progress = s.steps = s.switches = 0; s.abort = false; s.verdict.clear(); s.choose = choose; s.trace_sizes.clear(); s.fair_tail = false; s.rr = 0; s.run_length = 0; s.max_steps = max_steps;
 		s.current = -1; s.active = true;
 	}
 	std::vector<std::thread> th;
